@@ -2,6 +2,7 @@
 //!
 //!   vh replay <prop> <cases.ndjson> <report.json>      direction R (spec -> implementation)
 //!   vh record <prop> <seed> <n> <trace.ndjson>         direction V (implementation -> spec)
+mod c01;
 mod c04;
 mod c06;
 mod c09;
@@ -33,6 +34,7 @@ fn main() {
       start_watchdog(args[2].to_lowercase(), args[4].clone(), 25);
       note_case(&serde_json::json!("start"));
       match args[2].as_str() {
+        "C01" => c01::replay(&cases, &mut rep),
         "C04" => c04::replay(&cases, &mut rep),
         "C06" => c06::replay(&cases, &mut rep),
         "C09" => c09::replay(&cases, &mut rep),
